@@ -70,6 +70,10 @@ def instances(tier, seed):
                         h = H[2]
                     add(spec=fam.with_horizon(s, h), cfg=Cfg(method, N=N, M=M, intg=intg or 'rk', grid=grids[n % 4], degree=degree, scheme=scheme), when=when)
                     n += 1
+    # one Radau collocation point per step (its quadrature weight is a corrected table entry) with an integral in the objective
+    for when in ('before', 'after'):
+        s = copy.deepcopy(models()[-1])
+        add(spec=fam.with_horizon(s, H[2]), cfg=Cfg('DC', N=2, M=2, grid=fam.G_UNI, degree=1, scheme='radau'), when=when)
     # parameter values assigned AFTER the transcription (MPC style), one parameter at a time and several at once through a concatenation, then saved
     for mi, (method, intg) in enumerate((('MS', 'rk'), ('DC', None), ('SS', 'rk'))):
         s = copy.deepcopy(models()[-1])
